@@ -24,8 +24,13 @@ def stop_case(draw):
           "posts_before": draw(st.integers(0, 3)), "posts_with_stop": draw(st.integers(0, 2)),
           "slow_step": draw(st.sampled_from([0.0, 0.0, 0.3, 1.0])),
           "slow_arms": draw(st.booleans()),     # the slow handler ends by arming a timed source
+          "crash": draw(st.integers(0, 4)) == 0,  # a handler raises: the thread is gone before stop() is called
           "same_name": draw(st.integers(0, 3)) == 0,  # the other object carries the same name
           "schedule": [list(x) for x in draw(schedule_st)]}
+
+
+class DeliberateCrash(Exception):
+  """Raised on purpose by a generated handler."""
 
 
 class C12(Prop):
@@ -34,7 +39,8 @@ class C12(Prop):
   thorough_examples = 4000
   rule = ("Generated scenarios under the deterministic scheduler and virtual clock: an ActiveObject "
           "with 0-3 timed sources (periods 0.25-1.0, endless or 4 shots, over three signal names), a second ActiveObject "
-          "subscribed to a signal, plain posts queued before the stop, optionally a handler "
+          "subscribed to a signal, plain posts queued before the stop, optionally a handler that raises (so the "
+          "object's thread has already ended when stop() is called from outside), optionally a handler "
           "that takes 0.3-1.0 s of virtual time and is running when stop() is called; stop() is called at a "
           "generated virtual instant (a multiple of 0.25, so it often coincides with a timer firing "
           "or falls inside a step) either from the body thread or from one of the object's own "
@@ -72,6 +78,8 @@ class C12(Prop):
 
     def body(s):
       def on_extra(c, e):
+        if e.signal_name == "VCRASH":
+          raise DeliberateCrash("a handler of the user's chart raised")
         if e.signal_name == "VSLOW":
           w.ao.time.sleep(e.payload)
           if case.get("slow_arms"):
@@ -102,6 +110,10 @@ class C12(Prop):
         getattr(chart, "post_" + src["kind"])(Event(signal=signals[src.get("sig", "VB")], payload=k), period=src["period"],
                                               times=src["times"], deferred=src["deferred"])
       s.wake_at(t0 + case["stop_at"])
+      if case.get("crash") and case["stop_from"] == "outside":
+        # the object's thread ends on its own (a handler raised); stop() is still what cleans up
+        chart.post_fifo(Event(signal=signals["VCRASH"], payload=0))
+        s.quiesce()
       if case.get("slow_step"):
         # a handler that takes (virtual) time: stop() must wait for the step to finish
         chart.post_lifo(Event(signal=signals["VSLOW"], payload=case["slow_step"]))
@@ -143,7 +155,7 @@ class C12(Prop):
     stats.case(case, bool(info.get("in_step")) or fires,
                ["stop_from_" + case["stop_from"], "sources_%d" % len(case["sources"]),
                 "coincides_with_firing" if fires else "no_coincidence"])
-    errs = [x for x in s.thread_errors]
+    errs = [x for x in s.thread_errors if not isinstance(x[1], DeliberateCrash)]
     if errs:
       name, e, tb = errs[0]
       raise PropertyViolation("thread %s died: %s: %s" % (name, type(e).__name__, e), "C12:thread-error")
